@@ -108,19 +108,37 @@ def run(ctx):
     ctx.rule = ('random API-call histories (8-25 calls + 8 closing queries) over 4-7 variables and a pool of 6-10 equations '
                 '(assignments, ODEs, higher-order / two-variable / non-variable left-hand sides, zero-quantity terms), invalid '
                 'calls and cache-populating queries interleaved at random positions; non-trivial = contains an edit that '
-                'succeeds after a query')
+                'succeeds after a query; plus histories of convert_variable calls on generated unit-consistent models, '
+                'compared with a freshly built model after every conversion (oracle only)')
     ctx.trusted += ['equations enter the model as what the Model code inspects (lhs shape, referenced variables/derivatives, '
                     'atoms) computed by the harness from the real SymPy objects',
                     'networkx DiGraph modelled as node/edge lists']
     cases = load_corpus() + [msm.gen_case(ctx.seed * 100000 + i) for i in range(n)]
     results = vlib.pmap(work, cases)
     evaluate(ctx, cases, results)
+    conversion_stratum(ctx, 'C08', 40 if ctx.tier == 'quick' else 600)
     if ctx.tie_breaks and not ctx.violations:
         more = [msm.gen_case(ctx.seed * 100000 + 50000 + i) for i in range(10 * n if ctx.tier == 'quick' else n)]
         for case, bad in zip(more, vlib.pmap(run_oracle, more)):
             ctx.count(case_key=case['ops'], kind='search')
             for what, detail in bad:
                 ctx.violation(what, {'case': case, 'detail': detail})
+
+
+def conversion_stratum(ctx, prop, n):
+    """unit conversion is one of the edits the property quantifies over: histories of convert_variable calls on generated
+    unit-consistent models (the C06 generator), judged on the implementation by the fresh-model / look-up oracle
+    (ModelSM has no conversion operation: this stratum is labelled testing, not correspondence)"""
+    import cvlib
+    from props import c06
+    ccases = [c06.gen_case(ctx.seed * 100000 + 70000 + i) for i in range(n)]
+    for case, bad in zip(ccases, vlib.pmap(cvlib.conversion_coherence, ccases)):
+        ctx.count(case_key=(case['spec'], case['convs']), nontrivial=True, kind='conversion-history')
+        for who, what, detail in bad:
+            if who == 'harness':
+                ctx.tie_break('harness error in the conversion stratum: ' + what, case)
+            elif who == prop:
+                ctx.violation(what, {'conversion_case': case, 'detail': detail})
 
 
 def evaluate(ctx, cases, results):
@@ -145,6 +163,12 @@ def load_corpus():
 
 
 def replay(ctx, case):
+    if 'conversion_case' in case:
+        import cvlib
+        bad = [b for b in cvlib.conversion_coherence(case['conversion_case']) if b[0] == 'C08']
+        for who, what, detail in bad:
+            ctx.violation(what, {'conversion_case': case['conversion_case'], 'detail': detail})
+        return bad[0][1] if bad else None
     c = case.get('case', case)
     bad = run_oracle(c)
     for what, detail in bad:
